@@ -650,13 +650,13 @@ class CGen(qf.QGen):
         if depth < self.max_depth and self.r.random() < 0.06:
             q = self.setop(self.cls(cls))             # an (un-)aliased set operation as a source
             if self.r.random() < 0.3:
-                q["alias"] = self.r.choice(["so", "un1"])
+                q["alias"] = self.r.choice(["so", "un1", "t2", "cust2"])
             return ["q", q]
         if depth < self.max_depth and self.r.random() < self.p_subq:
             q = self.select(self.cls(cls), depth + 1, small=True)
             r = self.r.random()
             if r < 0.35:
-                q["alias"] = self.r.choice(["sub1", "sq", "z", "sq1"])
+                q["alias"] = self.r.choice(["sub1", "sq", "z", "sq1", "t2", "u2", "orders2"])
             elif r < 0.35 + self.p_pretag and not q.get("with"):
                 q["pretag"] = self.r.choice([0, 0, 0, 1])
             return ["q", q]
@@ -1213,6 +1213,29 @@ def _corpus_builtin():
                         out.append({"kind": "stmt", "q": sentinelise(sel(cls, copy.deepcopy(frm), [["t", _f("id", s0)], ["t", _f("salary", s1)]],
                                                                          joins=copy.deepcopy(joins_),
                                                                          where=["t", ["basic", "ne", _f("salary", s0), _f("salary", s1), None]]))})
+    # the numbered alias x kind of the source that already carries name2 (aliased sub-query / set operation / WITH reference /
+    # aliased table) x where that source sits (FROM item, earlier join) x class: the builder must move on to name3
+    for cls in ("Query", "MySQLQuery", "PostgreSQLQuery"):
+        for kind_ in ("subquery", "setop", "cte", "table"):
+            for pos_ in ("from", "join"):
+                if kind_ == "subquery":
+                    other = ["q", dict(mini(cls, U), alias="t2")]
+                elif kind_ == "setop":
+                    other = ["q", dict(union(cls), alias="t2")]
+                elif kind_ == "cte":
+                    other = ["a", "t2"]
+                else:
+                    other = ["t", ["v", [], "t2"]]
+                if pos_ == "from":
+                    frm, jn = [["t", T], other], [["inner", ["t", T], ["on", ["t", ["basic", "eq", _f("a", s0), _f("a", s2), None]]]]]
+                else:
+                    frm = [["t", T]]
+                    jn = [["inner", other, ["on", ["t", ["basic", "eq", _f("a", s0), _f("a", s1), None]]]],
+                          ["inner", ["t", T], ["on", ["t", ["basic", "eq", _f("a", s0), _f("a", s2), None]]]]]
+                q_ = sel(cls, copy.deepcopy(frm), [["t", _f("a", s0)], ["t", _f("a", s1)], ["t", _f("b", s2)]], joins=copy.deepcopy(jn))
+                if kind_ == "cte":
+                    q_["with"] = [["t2", mini(cls, V)]]
+                out.append({"kind": "stmt", "q": sentinelise(q_)})
     # pinned shapes that must stay right
     x1, x2 = ["x", ["d", "s"], None], ["x", ["s2"], None]
     out.append({"kind": "stmt", "q": sentinelise(sel("Query", [["t", x1]], [["t", _f("a", s0)], ["t", _f("b", s1)]],
@@ -1675,6 +1698,17 @@ def oracle(case, outcome):
                 viols.append({"signature": ["C10", "from/join", "table", "joined-table-keeps-base-table-name"],
                               "what": "statement #%s joins un-aliased table %r which is also a base table, under the same name: %r"
                                       % (sid, e["table"], text[:300])})
+        # a numbered alias the builder invents for a re-joined table must not be the name of ANY earlier source of the
+        # statement (table, sub-query, set operation, WITH reference; user-given aliases included) nor of the target
+        for k_, e in enumerate(ent):
+            if e["kind"] == "table" and e["user_alias"] is None and e["alias"]:
+                earlier = [(x["alias"] or x["table"]) for x in ent[:k_]]
+                if tgt is not None:
+                    earlier.append(tgt["alias"] or tgt["table"])
+                if e["alias"] in earlier and not any(x["kind"] == "table" and x["user_alias"] is None and x["alias"] == e["alias"] for x in ent[:k_]):
+                    viols.append({"signature": ["C10", "from/join", "table", "numbered-alias-equals-earlier-source"],
+                                  "what": "statement #%s: the alias %r invented for the re-joined table %r is already the name of an earlier source: %r"
+                                          % (sid, e["alias"], e["table"], text[:300])})
         seen = {}
         for a, e in invented:
             if a in seen or a in plain:
